@@ -369,6 +369,13 @@ def classify(p, ref, boa, probe=None):
     if bc == "T:ReferenceError" and rc != bc and len(ba) < len(ra) and subseq(ba, ra):
         nref_b = max(nref_b, nref_r + 1)
     d1 = first_diff(ref, boa)
+    if d1 and d1[0] == "t":
+        # the first differing line decides which side raised the ReferenceError (later lines are consequences)
+        in_r, in_b = "ReferenceError" in (d1[2] or ""), "ReferenceError" in (d1[3] or "")
+        if in_r and not in_b:
+            nref_r, nref_b = 1, 0
+        elif in_b and not in_r:
+            nref_r, nref_b = 0, 1
     same_shape = bool(d1 and d1[0] == "t" and d1[2] is not None and d1[3] is not None and len(d1[2].split(" ")) == len(d1[3].split(" ")))
     if has(p, "SSwitch") and nref_r > nref_b:
         return "switch-tdz-missing"
